@@ -342,6 +342,38 @@ def rule_eqn(ctx, rep):
     got = _call(ctx, me, "_calculate_livein", key, g.blocks["C"], lo)
     rep.check(got == {2, 3, 4}, rule, "live-in(callsub, callee never returns)", wl, got, [2, 3, 4],
               why="when the callee cannot return, the return point must not constrain the call")
+    # 6b. the callee can both return and end the program: values accepted inside the callee never see the return point
+    def mixed(kind):
+        g = Graph(ctx)
+        g.block("C", ["callsub f"]); g.block("R", ["int 1", "return"])
+        g.block("F0", ["f:", "txn Amount", "bnz f1"]); g.block("F1", ["retsub"])
+        g.edge("C", "R"); g.edge("F0", "F1")
+        subs = ["f"]
+        if kind == "accepting leaf":
+            g.block("F2", ["f1:", "int 1", "return"]); g.edge("F0", "F2")
+            g.subroutine("f", "F0", ["F0", "F1", "F2"])
+        elif kind == "failing leaf":
+            g.block("F2", ["f1:", "err"]); g.edge("F0", "F2")
+            g.subroutine("f", "F0", ["F0", "F1", "F2"])
+        else:   # the accepting leaf is in a subroutine called by the callee
+            g.block("F2", ["f1:", "callsub g"]); g.block("F3", ["retsub"]); g.edge("F0", "F2"); g.edge("F2", "F3")
+            g.block("G0", ["g:", "txn Fee", "bnz g1"]); g.block("G1", ["retsub"]); g.block("G2", ["g1:", "int 1", "return"])
+            g.edge("G0", "G1"); g.edge("G0", "G2")
+            g.subroutine("f", "F0", ["F0", "F1", "F2", "F3"]); g.subroutine("g", "G0", ["G0", "G1", "G2"])
+            g.call("F2", "g")
+            subs = ["f", "g"]
+        g.subroutine("main", "C", ["C", "R"])
+        g.call("C", "f")
+        return g, g.function("main", subs)
+
+    for kind, want in (("accepting leaf", {2, 3, 4}), ("failing leaf", {2, 3}), ("accepting leaf in a nested callee", {2, 3, 4})):
+        g, fn = mixed(kind)
+        me, lo = setup(g, fn, {n: set() for n in g.blocks}, {})
+        lo[g.blocks["R"]] = {1, 2, 3}
+        lo[g.blocks["F0"]] = {2, 3, 4}
+        got = _call(ctx, me, "_calculate_livein", key, g.blocks["C"], lo)
+        rep.check(got == want, rule, f"live-in(callsub, callee has retsub and {kind})", wl, got, sorted(want),
+                  why="values accepted by a program-terminating exit inside the callee are not subject to the checks after the call")
     # 7. merge steps: out = in ∩ block constraint; leaf blocks are not touched by the backward pass
     wm = _gen_where(ctx, "_merge_information_forward")
     me, ro = setup(g2, fn2, {"P": {1, 2, 3, 4}, "Q": {2, 5}, "J": set()}, {("J", "P"): {3, 4, 9}, ("J", "Q"): {5, 6}})
